@@ -192,6 +192,25 @@ func runC13(c *ctx) {
 		}
 		direct(arr, ks, desc, "long")
 	}
+	// keys written as built-in calls that take the item from the context (the argument is left out): each item's key is
+	// computed from that item
+	for rep := 0; rep < c.scale(150, 3000) && !c.tooMany(); rep++ {
+		n := 2 + r.intn(7)
+		words := make([]interface{}, n)
+		nums := make([]interface{}, n)
+		numStrs := make([]interface{}, n)
+		for i := 0; i < n; i++ {
+			words[i] = []string{"b", "A", "cc", "", "a", "Bb", "ccc", "é", "z"}[r.intn(9)]
+			nums[i] = float64(r.intn(21) - 10)
+			numStrs[i] = fmt.Sprint(r.intn(30) - 5)
+		}
+		docs := map[string]interface{}{"words": words, "nums": nums, "ns": numStrs}
+		for _, prog := range []string{"ns^($number())", "ns^(>$number())", "nums^($string())", "nums^(>$string())", "words^($lowercase())", "words^($uppercase(), $)", "words^($length(), $)",
+			"words^(>$length(), $lowercase())", "ns^(-$number())", "nums^($string() & \"z\")", "ns^($number() + 1)", "words^($length())", "ns^($number($))", "words^($lowercase($))",
+			"ns^($number() % 3, $number())", "words^($substring(1))", "words^($pad(3))", "nums^($abs())", "nums^($power(2), $)"} {
+			c.diffEval(prog, docs, "context-default-keys")
+		}
+	}
 	// general specs incl. computed keys and error clause
 	for rep := 0; rep < c.scale(1500, 30000) && !c.tooMany(); rep++ {
 		n := r.intn(10)
@@ -258,7 +277,9 @@ func runC13(c *ctx) {
 
 // literal keys that coincide with values the computed keys can take ("p", "x", "1", "hi"): literal/computed collisions in both orders
 var c14KeyExprs = []string{"g", "$string(k)", "s", "g & s", "\"lit\"", "k", "nothing", "$string(k % 2)", "id > 2 ? \"hi\" : \"lo\"", "\"p\"", "\"x\"", "\"1\"", "\"hi\"", "g", "s"}
-var c14ValExprs = []string{"id", "$count($)", "$sum(k)", "$.id", "[id]", "{\"n\": $count(id)}", "k", "nothing", "$", "$max(id)", "v", "v", "$count(v)", "v[0]", "$sum(v)"}
+var c14ValExprs = []string{"id", "$count($)", "$sum(k)", "$.id", "[id]", "{\"n\": $count(id)}", "k", "nothing", "$", "$max(id)", "v", "v", "$count(v)", "v[0]", "$sum(v)",
+	// the same members in other spellings: with the [] marker, through $, in parentheses, back-quoted
+	"id[]", "$.id[]", "$.k", "(id)", "`id`", "$.v", "$.v[]", "(id)[]", "k[]", "[$.id]", "$.`k`[]", "($.id)[]", "$.(id)[]", "s[]", "$.s[]"}
 
 func groupDoc(r *rng, n int) []interface{} {
 	arr := make([]interface{}, n)
